@@ -252,7 +252,10 @@ def routine_prefix_checks(ctx):
                     (ast.FormattedValue(value=x, conversion=-1) if not isinstance(x, (ast.Constant, ast.FormattedValue)) else x) for x in out]
         return []
     gen = [n.value for n in ast.walk(rh.node) if isinstance(n, ast.Assign) and isinstance(n.targets[0], ast.Name) and "hybrid_op_count" in U(n.value) and name_parts(n.value)]
-    ctx.need(len(gen) == 1, f"temporary name generator not found in resolve_hybrid ({len(gen)} candidates)")
+    if len(gen) != 1:
+        ctx.check("temporary names are generated from the holder's counter", False, "one name expression built from hybrid_op_count in resolve_hybrid",
+                  f"{len(gen)} name expressions mention the counter: the names of two temporaries can coincide", fn_where(idx, rh))
+        return
     parts = name_parts(gen[0])
     scope_attrs = [v.value.attr for v in parts if isinstance(v, ast.FormattedValue) and isinstance(v.value, ast.Attribute) and U(v.value.value) == "self" and "hybrid_op_count" not in U(v)]
     counter_last = isinstance(parts[-1], ast.FormattedValue) and "hybrid_op_count" in U(parts[-1])
